@@ -22,6 +22,21 @@ type identity struct {
 	spec reqSpec
 }
 
+// proxyPeers: a client named by X-Forwarded-For / X-Real-IP reaches Helios through whichever
+// front proxy took the connection; the peer address must not matter for its identity.
+var proxyPeers = []string{"10.255.0.1", "10.255.0.2", "10.255.7.9", "172.16.0.4", "2001:db8:ffff::1"}
+var affReqN int
+
+// specOf returns the request for an identity; header-named clients come in through varying peers.
+func specOf(id identity) reqSpec {
+	sp := id.spec
+	if sp.client == "10.255.0.1" && (sp.xff != "" || sp.xreal != "") {
+		affReqN++
+		sp.client = proxyPeers[(affReqN*7)%len(proxyPeers)]
+	}
+	return sp
+}
+
 func makeIdentities(x *X, n int) []identity {
 	c := x.C
 	var ids []identity
@@ -63,6 +78,7 @@ func makeIdentities(x *X, n int) []identity {
 
 func runLBAff(x *X) {
 	c := x.C
+	affReqN = 0
 	strategy := []string{"ip_hash_consistent", "ip_hash"}[c.Intn(2, "strategy")]
 	nb := 1 + c.Intn(6, "nbackends")
 	nIDs := 16 + c.Intn(49, "nids")
@@ -167,7 +183,7 @@ func runLBAff(x *X) {
 			per := make([][]job, tasks)
 			for i := 0; i < k; i++ {
 				id := ids[c.Intn(len(ids), "id")]
-				sp := id.spec
+				sp := specOf(id)
 				sp.path = paths[c.Intn(len(paths), "path")]
 				sp.hdr = map[string]string{"User-Agent": fmt.Sprintf("ua-%d", i)}
 				per[i%tasks] = append(per[i%tasks], job{id, sp})
@@ -196,7 +212,7 @@ func runLBAff(x *X) {
 		} else {
 			for i := 0; i < k && !x.dead; i++ {
 				id := ids[c.Intn(len(ids), "id")]
-				sp := id.spec
+				sp := specOf(id)
 				sp.path = paths[c.Intn(len(paths), "path")]
 				var r simResult
 				x.Do("req", func() { r = h.do(sp) }, onErr)
@@ -222,7 +238,7 @@ func runLBAff(x *X) {
 			for _, id := range ids {
 				if _, ok := mapping[id.key]; !ok && !x.dead {
 					var r simResult
-					sp := id.spec
+					sp := specOf(id)
 					x.Do("req", func() { r = h.do(sp) }, onErr)
 					note(id, r)
 				}
@@ -243,7 +259,7 @@ func runLBAff(x *X) {
 					break
 				}
 				var r simResult
-				sp := id.spec
+				sp := specOf(id)
 				x.Do("req", func() { r = h.do(sp) }, onErr)
 				note(id, r)
 			}
@@ -280,7 +296,7 @@ func runLBAff(x *X) {
 			net.mu.Unlock()
 			x.Fault("backend-s502")
 			var r simResult
-			sp := id.spec
+			sp := specOf(id)
 			x.Do("req", func() { r = h.do(sp) }, onErr)
 			_ = r
 			net.mu.Lock()
